@@ -99,6 +99,7 @@ func (g *GettyRemotingClient) syncCallback(reqMsg message.RpcMessage, respMsg *m
 	select {
 	case <-gxtime.GetDefaultTimerWheel().After(RpcRequestTimeout):
 		g.gettyRemoting.RemoveMergedMessageFuture(reqMsg.ID)
+		g.gettyRemoting.RemoveMessageFuture(reqMsg.ID)
 		log.Errorf("wait resp timeout: %#v", reqMsg)
 		return nil, fmt.Errorf("wait response timeout, request: %#v", reqMsg)
 	case <-respMsg.Done:
